@@ -196,11 +196,11 @@ def translate(mod, main_rename=None):
         fields, _ = data_struct(d)
         out.append("struct D_%s { %s } __attribute__((packed));" % (cname(d["name"]), " ".join(fields) if fields else "il_u8 empty[0];"))
         out.append("%s%sstruct D_%s %s __attribute__((aligned(%d)));" % ("extern " if d["export"] else "static ", "__thread " if d["thread"] else "",
-                                                                          cname(d["name"]), gname(d["name"]), d["align"]))
+                                                                          cname(d["name"]), gname(d["name"]), d["align"] or 1))
     for d in mod["data"]:
         _, inits = data_struct(d)
         out.append("%s%sstruct D_%s %s __attribute__((aligned(%d))) = { %s };" % (
-            "" if d["export"] else "static ", "__thread " if d["thread"] else "", cname(d["name"]), gname(d["name"]), d["align"], ", ".join(inits)))
+            "" if d["export"] else "static ", "__thread " if d["thread"] else "", cname(d["name"]), gname(d["name"]), d["align"] or 1, ", ".join(inits)))
 
     def addr_of(n):
         return "((il_u64)%s%s)" % ("&" if (n in defined_data or n in defined_func) else "", gname(n))
@@ -299,6 +299,8 @@ def translate_func(f, mod, tt, val, vname, gname, proto, defined_func):
         else:
             if f["ret"] is None:
                 body.append("\treturn;")
+            elif f["ret"].startswith(":") and j["arg"] is None:
+                body.append("\treturn __ret;")
             elif f["ret"].startswith(":"):
                 body.append("\t__builtin_memcpy((void*)__ret, (void*)%s, %d); return __ret;" % (V(j["arg"], "l"), tt.size(f["ret"])))
             else:
@@ -452,7 +454,7 @@ def build_native(il_text, workdir, name="prog", runtime_c=None, sanitize=True, m
     with open(cpath, "w") as f:
         f.write(csrc)
     exe = os.path.join(workdir, name)
-    cmd = ["gcc", "-w", "-fno-builtin", "-fno-strict-aliasing", "-fwrapv", opt, "-o", exe, cpath]
+    cmd = ["gcc", "-w", "-fno-pie", "-no-pie", "-fno-builtin", "-fno-strict-aliasing", "-fwrapv", opt, "-o", exe, cpath]
     if sanitize:
         cmd[1:1] = ["-fsanitize=address", "-fno-omit-frame-pointer"]
     if runtime_c:
